@@ -3,7 +3,10 @@
 
 package sarama
 
-import "fmt"
+import (
+	"fmt"
+	"sync"
+)
 
 // In-package access for the C08/C13 harness (balance strategies). Added to package sarama by -overlay only.
 
@@ -52,13 +55,24 @@ type VerifStickyTrace struct {
 	Picks           []VerifTP
 	Events          int
 	Other           map[string]int // reports of kinds this shim does not know (scratch instrumentation)
+	Mu              sync.Mutex     // guards the fields above while Plan is still running (watchdog reads)
 }
 
 // VerifStickyPlan runs a fresh stickyBalanceStrategy.Plan with the observer installed; a panic is recovered and reported.
 func VerifStickyPlan(members map[string]ConsumerGroupMemberMetadata, topics map[string][]int32) (plan BalanceStrategyPlan, tr *VerifStickyTrace, err error, panicked string) {
-	tr = &VerifStickyTrace{Other: map[string]int{}}
+	tr = &VerifStickyTrace{}
+	plan, err, panicked = VerifStickyPlanInto(tr, members, topics)
+	return
+}
+
+// VerifStickyPlanInto is VerifStickyPlan reporting into a trace the caller already holds (so that a watchdog can read
+// what was reported when Plan does not return).
+func VerifStickyPlanInto(tr *VerifStickyTrace, members map[string]ConsumerGroupMemberMetadata, topics map[string][]int32) (plan BalanceStrategyPlan, err error, panicked string) {
+	tr.Other = map[string]int{}
 	tpOf := func(a []interface{}) VerifTP { return VerifTP{a[0].(string), a[1].(int32)} }
 	VerifSetObserver(func(kind string, a ...interface{}) {
+		tr.Mu.Lock()
+		defer tr.Mu.Unlock()
 		tr.Events++
 		switch kind {
 		case "sticky.iter.prepop.members":
